@@ -111,6 +111,20 @@ Theorem no_panic_registry_load : forall (A : Type) (parse : string -> option A) 
   registry_load parse f <> Panic.
 Proof. exact @no_panic_registry_load_lemma. Qed.
 
+(* the registry file: NodeRegistry::save replaces the whole content, so after any history of saves on one
+   path (growing, shrinking, over any previous content) load returns the registry saved last *)
+Theorem registry_save_load_roundtrip : forall (A : Type) (fmt : A -> string) (parse : string -> option A) init earlier r,
+  parse (fmt r) = Some r -> fmt r <> EmptyString ->
+  registry_load parse (saves init (map fmt earlier ++ [fmt r])) = Ok (RParsed r).
+Proof. exact @registry_save_load_lemma. Qed.
+
+Theorem write_without_truncate_refuted :
+  exists (parse : string -> option nat) old new_,
+    parse old = Some 1%nat /\ parse new_ = Some 2%nat /\
+    registry_load parse (file_write (Text old) new_) = Ok (RParsed 2%nat) /\
+    registry_load parse (file_write_no_truncate (Text old) new_) = Err 2.
+Proof. exact write_without_truncate_refuted_lemma. Qed.
+
 Theorem no_panic_header_from_record : forall decode value, header_from_record decode value <> Panic.
 Proof. exact no_panic_header_from_record_lemma. Qed.
 
